@@ -15,7 +15,7 @@
 (* FinishAll), or after MaxIters steps; a stopped element is frozen while   *)
 (* other batch elements go on, so each element is an independent machine.   *)
 (*                                                                         *)
-(* A path of length n has probability num / D^n.                            *)
+(* A path's probability is an exact rational <<num, den>>.                  *)
 (***************************************************************************)
 EXTENDS Naturals, Integers, Sequences, FiniteSets, TLC, Json, FiniteSetsExt, SequencesExt
 
@@ -35,33 +35,47 @@ vars == <<V, tv, eos, fa, mi, width, t, beam, prevbeam, stopped>>
 D == IF V = 2 THEN 4 ELSE 6
 RECURSIVE Code(_)
 Code(y) == IF y = <<>> THEN 0 ELSE Code(Front(y)) * (V + 1) + Last(y) + 1
-\* next-token weights given the WHOLE path; they sum to D and are all positive
+\* next-token weights given the WHOLE path, all positive.  Variants 0..2: separated weights summing to D;
+\* 3: uniform (maximal ties); 4..6: SHALLOW FUSION of two separated tables (a, b) = (0,1), (1,2), (2,0) with
+\* beta = 1, i.e. the product of their weights -- the normaliser then depends on the path
+\* a hash of the WHOLE path whose residue mod 3 depends on every token and on their order (base 2: the
+\* coefficients 2^i mod 3 alternate 1, 2); Code alone would not do for V = 2, where Code mod 3 is the last token
+RECURSIVE PH(_)
+PH(y) == IF y = <<>> THEN 0 ELSE PH(Front(y)) * 2 + Last(y) + 1
+Base(y, v, q) ==
+  IF V = 2 THEN (IF v = 0 THEN 1 + ((PH(y) + q) % 3) ELSE 3 - ((PH(y) + q) % 3))
+  ELSE LET w0 == 1 + ((PH(y) + q) % 3)
+           w1 == 1 + ((PH(y) * 2 + Len(y) + q) % 2)
+       IN IF v = 0 THEN w0 ELSE IF v = 1 THEN w1 ELSE 6 - w0 - w1
 Wt(y, v) ==
   IF tv = 3 THEN D \div V
-  ELSE IF V = 2 THEN (IF v = 0 THEN 1 + ((Code(y) + tv) % 3) ELSE 3 - ((Code(y) + tv) % 3))
-  ELSE LET w0 == 1 + ((Code(y) + tv) % 3)
-           w1 == 1 + ((Code(y) * 2 + tv) % 2)
-       IN IF v = 0 THEN w0 ELSE IF v = 1 THEN w1 ELSE 6 - w0 - w1
+  ELSE IF tv <= 2 THEN Base(y, v, tv)
+  ELSE Base(y, v, tv - 4) * Base(y, v, (tv - 3) % 3)
+\* the normaliser the search applies (log_softmax) at context y
+RECURSIVE SumW(_, _)
+SumW(y, v) == IF v < 0 THEN 0 ELSE Wt(y, v) + SumW(y, v - 1)
+Zt(y) == SumW(y, V - 1)
 
 RECURSIVE Pow(_, _)
 Pow(x, n) == IF n = 0 THEN 1 ELSE x * Pow(x, n - 1)
 Fin(y) == eos # NoEos /\ y # <<>> /\ Last(y) = eos
-\* comparable score: numerator over D^MaxLen
-Score(bm, y, ml) == bm[y] * Pow(D, ml - Len(y))
+\* a path's probability is the rational bm[y] = <<num, den>>; comparisons by cross-multiplication
+Geq(a, b) == a[1] * b[2] >= b[1] * a[2]
+Gt(a, b) == a[1] * b[2] > b[1] * a[2]
 
 Init ==
   /\ V \in Vs /\ tv \in TVs /\ width \in Widths /\ mi \in MaxItersS
   /\ eos \in (0..(V - 1)) \cup {NoEos}
   /\ fa \in BOOLEAN
   /\ (eos = NoEos => fa = FALSE)              \* finish_all_paths only matters with an eos
-  /\ t = 0 /\ beam = (<<>> :> 1) /\ prevbeam = (<<>> :> 1) /\ stopped = FALSE
+  /\ t = 0 /\ beam = (<<>> :> <<1, 1>>) /\ prevbeam = (<<>> :> <<1, 1>>) /\ stopped = FALSE
 
 \* candidates after one step: finished paths persist unchanged, others are extended by every token
 Cands(bm) == [z \in {y \in DOMAIN bm : Fin(y)} \cup {Append(y, v) : y \in {x \in DOMAIN bm : ~Fin(x)}, v \in 0..(V - 1)} |->
-                IF z \in DOMAIN bm /\ Fin(z) THEN bm[z] ELSE bm[Front(z)] * Wt(Front(z), Last(z))]
+                IF z \in DOMAIN bm /\ Fin(z) THEN bm[z]
+                ELSE <<bm[Front(z)][1] * Wt(Front(z), Last(z)), bm[Front(z)][2] * Zt(Front(z))>>]
 
-TopScore(bm) == LET ml == t IN Max({Score(bm, y, ml) : y \in DOMAIN bm})
-TopSet(bm) == {y \in DOMAIN bm : Score(bm, y, t) = TopScore(bm)}
+TopSet(bm) == {y \in DOMAIN bm : \A z \in DOMAIN bm : Geq(bm[y], bm[z])}
 \* the stopping rule is evaluated before each step except the first
 MayStop == /\ eos # NoEos /\ t > 0
            /\ IF fa THEN \A y \in DOMAIN beam : Fin(y)
@@ -78,12 +92,11 @@ Extend ==
   /\ ~stopped /\ t < mi /\ MayGoOn
   /\ LET c == Cands(beam)
          k == IF Cardinality(DOMAIN c) < width THEN Cardinality(DOMAIN c) ELSE width
-         ml == t + 1
-         sc(z) == Score(c, z, ml)
-         \* the k-th largest score: everything above it must be kept, ties at it are free
-         thr == Max({s \in {sc(z) : z \in DOMAIN c} : Cardinality({z \in DOMAIN c : sc(z) >= s}) >= k})
-         must == {z \in DOMAIN c : sc(z) > thr}
-         tied == {z \in DOMAIN c : sc(z) = thr}
+         \* a candidate with the k-th largest score: everything strictly above it must be kept, ties at it are free
+         kth == CHOOSE z \in DOMAIN c : /\ Cardinality({x \in DOMAIN c : Geq(c[x], c[z])}) >= k
+                                        /\ Cardinality({x \in DOMAIN c : Gt(c[x], c[z])}) < k
+         must == {z \in DOMAIN c : Gt(c[z], c[kth])}
+         tied == {z \in DOMAIN c : Geq(c[z], c[kth]) /\ Geq(c[kth], c[z])}
      IN \E X \in kSubset(k - Cardinality(must), tied) :
           beam' = [z \in must \cup X |-> c[z]]
   /\ t' = t + 1
@@ -98,7 +111,9 @@ Spec == Init /\ [][Next]_vars
 (***************************************************************************)
 RECURSIVE ChainNum(_)
 ChainNum(y) == IF y = <<>> THEN 1 ELSE ChainNum(Front(y)) * Wt(Front(y), Last(y))
-ScoreIsChain == \A y \in DOMAIN beam : beam[y] = ChainNum(y)
+RECURSIVE ChainDen(_)
+ChainDen(y) == IF y = <<>> THEN 1 ELSE ChainDen(Front(y)) * Zt(Front(y))
+ScoreIsChain == \A y \in DOMAIN beam : beam[y] = <<ChainNum(y), ChainDen(y)>>
 StopsAtFirstEos == \A y \in DOMAIN beam : \A i \in 1..(Len(y) - 1) : eos = NoEos \/ y[i] # eos
 Shape == /\ Cardinality(DOMAIN beam) <= width
          /\ \A y \in DOMAIN beam : Len(y) <= t /\ \A i \in 1..Len(y) : y[i] \in 0..(V - 1)
@@ -109,7 +124,7 @@ Complete == {y \in Seqs(mi) : /\ \A i \in 1..(Len(y) - 1) : eos = NoEos \/ y[i] 
 FullSetWhenWide ==
   (stopped /\ width >= Cardinality(Complete) /\ (fa \/ eos = NoEos)) =>
       /\ DOMAIN beam = Complete
-      /\ \A y \in Complete : beam[y] = ChainNum(y)
+      /\ \A y \in Complete : beam[y] = <<ChainNum(y), ChainDen(y)>>
 
 (***************************************************************************)
 (* export: every terminal beam (one per tie resolution)                    *)
@@ -121,12 +136,12 @@ ExportStep ==
     LET ps == SetToSeq(DOMAIN prevbeam)
         ys == SetToSeq(DOMAIN beam)
     IN Emit([kind |-> "step", V |-> V, tv |-> tv, eos |-> IF eos = NoEos THEN -1 ELSE eos, width |-> width, t |-> t,
-             prev |-> [i \in 1..Len(ps) |-> [y |-> ps[i], num |-> prevbeam[ps[i]]]],
-             beam |-> [i \in 1..Len(ys) |-> [y |-> ys[i], num |-> beam[ys[i]]]]])
+             prev |-> [i \in 1..Len(ps) |-> [y |-> ps[i], num |-> prevbeam[ps[i]][1], den |-> prevbeam[ps[i]][2]]],
+             beam |-> [i \in 1..Len(ys) |-> [y |-> ys[i], num |-> beam[ys[i]][1], den |-> beam[ys[i]][2]]]])
 Export ==
   stopped =>
     LET ys == SetToSeq(DOMAIN beam)
     IN Emit([kind |-> "final", V |-> V, tv |-> tv, eos |-> IF eos = NoEos THEN -1 ELSE eos, fa |-> fa, mi |-> mi, width |-> width, t |-> t,
              ncomplete |-> Cardinality(Complete),
-             beam |-> [i \in 1..Len(ys) |-> [y |-> ys[i], num |-> beam[ys[i]]]]])
+             beam |-> [i \in 1..Len(ys) |-> [y |-> ys[i], num |-> beam[ys[i]][1], den |-> beam[ys[i]][2]]]])
 =============================================================================
